@@ -1,22 +1,33 @@
 """C19 - embedded Python keeps its meaning through analysis and re-emission.
 
-corr  : (1) the Lean model of `_ast_util.SourceGenerator` (`print`, regenerated operator tables and visit_*
-            inventory) vs `mako.pyparser.ExpressionGenerator(node).value()` on grammar-generated expressions
-            (string equality; an exception of the real code <-> `none`);
-        (2) the precedence table `needsParens` of the model vs CPython's parser, exhaustively for every
+corr  : (1) corr.print - the Lean model of `_ast_util.SourceGenerator` (`print`, regenerated operator tables and
+            visit_* inventory) vs `mako.pyparser.ExpressionGenerator(node).value()` on a corpus of witnesses and on
+            grammar-generated expressions (string equality; an exception of the real code <-> `none`);
+        (2) corr.precedence-table - the model's `needsParens` vs CPython's parser, exhaustively for every
             (slot, expression class) pair and several samples per class - every run;
-        (3) the model of `pyparser.FindIdentifiers` vs `mako.ast.PythonCode(code)` (declared / undeclared), and the
-            specification `Spec.freeNames/boundNames` vs CPython's `symtable`;
-        (4) the models of `pygen.adjust_whitespace` and `PythonPrinter._flush_adjusted_lines` vs the real
-            functions on generated blocks (margins 0..12 of blanks/tabs, string literals with quotes, '#',
-            backslashes, newlines), and the model's `in_multi_line` flags vs the lexical specification;
-        (5) the guards of the `_partial` theorems vs reality: where all guards hold the re-emitted text must
-            re-parse to the same AST.
-oracle: (no Lean) (a) re-emitted expression re-parses to the original AST; (b) argument defaults of <%def>,
-        <%block>, <%page> and filter-call arguments in REAL templates evaluate to the same value as native
-        `eval`; (c) <% %> blocks written at any margin / nesting compute the same values as native `exec` of the
-        statements in a function (incl. multi-line string contents); (d) with `strict_undefined=True` and a
-        context holding exactly the block's free names (`symtable`), no NameError is raised.
+        (3) corr.identifiers - the model of `pyparser.FindIdentifiers` vs `mako.ast.PythonCode(code)` (declared /
+            undeclared / fetched); corr.spec-vs-symtable - `Spec.freeNames/boundNames` vs CPython's `symtable`;
+        (4) corr.adjust-whitespace / corr.flush-adjusted-lines - the models of `pygen.adjust_whitespace` and
+            `PythonPrinter.write_indented_block + _flush_adjusted_lines` (indent 0..3) vs the real functions on
+            generated blocks and on random texts over a small alphabet; corr.multiline-flags-vs-spec - the lexical
+            specification `Spec.multiFlags` vs the generator's own ground truth;
+        (5) corr.guards-predict-roundtrip - where the guards of the `_partial` theorems hold, the re-emitted text must
+            re-parse to the same AST (the step the Lean theorems leave to CPython's parser).
+oracle: (no Lean) oracle.reemit-roundtrip - re-emitted expression re-parses to the original AST;
+        oracle.template-values / oracle.filter-callee - argument defaults of <%def> (top-level, keyword-only, nested),
+        <%block>, <%page> and filter-call arguments in REAL templates evaluate to the same value as native `eval`;
+        oracle.signatures - def signatures with every parameter kind, called with keyword subsets, bind the same
+        values (and raise TypeError alike) as the same signature on a native function;
+        oracle.block-values - <% %> / <%! %> blocks written at any margin (spaces/tabs) at top level, under % if,
+        % for + % if and inside a <%def> compute the same values as native `exec` of the statements in a function with
+        the template's namespace as globals (multi-line string contents incl. TABs, namespace reads after a lambda
+        holding a comprehension);
+        oracle.identifiers-vs-symtable - PythonCode's fetched/declared sets vs symtable;
+        oracle.strict-undefined - with `strict_undefined=True` and a context holding exactly the block's free names no
+        NameError is raised.
+Every violation is shrunk (tree reduction for expressions, statement/line removal for blocks, parameter removal for
+signatures), classified by the *cause visible in the minimal case* (site + `where` fields) and matched against
+known_findings.json; a call into mako that does not return within its time limit is reported as a finding, not a hang.
 """
 from __future__ import annotations
 
@@ -32,27 +43,39 @@ import sys
 from harness.common import enc, dec, ddmin
 
 REGEN = ["PyExpr"]
-RULE = ("expressions: random derivations of CPython's expression grammar (names, constants incl. strings with quotes/"
-        "escapes, attribute, subscript, slices, calls with positional/keyword/*/** arguments, all unary/binary/"
-        "boolean/comparison operators, conditional expressions, lambdas with every parameter kind, tuples/lists/"
-        "sets/dicts incl. ** unpacking, the four comprehension kinds, f-strings, starred, :=, await, yield) to "
-        "depth 5, every sub-expression parenthesised in the source so that the AST shape is the generator's choice; "
-        "statement blocks: assignments, augmented assignments, for/while/if/try/with, imports, def (all parameter "
-        "kinds, defaults, decorators), class, lambdas, comprehensions, del, return; whitespace blocks: statements "
-        "with single-, triple-quoted and backslash-continued literals containing quotes, '#', backslashes, newlines, "
-        "at margins 0..12 of spaces/tabs; precedence table: every (slot, class) pair x all samples. A case is "
-        "non-trivial when it has depth >= 2 / more than one statement / a multi-line construct; distinct = distinct "
-        "source texts")
+RULE = ("expressions: a corpus of witnesses + random derivations of CPython's expression grammar (names, constants incl. "
+        "strings with quotes/escapes, attribute, subscript, slices incl. tuple slices, calls with positional/keyword/*/** "
+        "arguments, all unary/binary/boolean/comparison operators, conditional expressions, lambdas with every parameter "
+        "kind, tuples/lists/sets/dicts incl. ** unpacking, the four comprehension kinds incl. async, f-strings, starred, "
+        ":=, await, yield) to derivation depth 5, every sub-expression parenthesised in the source so that the AST shape is "
+        "the generator's choice; evaluable expressions: a typed generator (int/float/bool/list/str/dict/lambda-call) over a "
+        "fixed environment, placed in 7 template slots; signatures: positional (with trailing defaults), *args or bare *, "
+        "keyword-only with/without defaults in any order, **kw, called with positional counts and keyword subsets, in 3 "
+        "def shapes; statement blocks: a corpus + assignments, augmented assignments, for/while/if/try/with, imports, def "
+        "(all parameter kinds, defaults, decorators, bodies reading their parameters), class, lambdas, comprehensions, a "
+        "lambda holding a comprehension followed by a namespace read of its variable, del, return, assert; executable "
+        "blocks: assignments of single-, triple-quoted and backslash-continued literals containing quotes, '#', "
+        "backslashes, TABs on continuation lines, the other triple quote, comments (also ending in a backslash / holding "
+        "quotes), if/for/def/try, namespace reads, at 13 margins of 0..12 spaces/tabs x 5 placements (top, % if, <%def>, "
+        "% for + % if, <%! %>); precedence table: every (slot, class) pair x all samples. A case is non-trivial when it has "
+        "depth >= 2 / more than one statement / a multi-line construct / a keyword-only parameter; distinct = distinct source "
+        "texts")
 ASSUMPTIONS = [
     "CPython 3.12's parser, symtable and evaluator are the ground truth (not verified)",
     "`repr` of constants is taken from CPython and handed to the model (not modelled)",
-    "global/nonlocal declarations, async constructs, match statements and annotations are outside the modelled grammar",
+    "global/nonlocal declarations, async def/for/with, match statements and annotations are outside the modelled grammar",
     "re-parsing equivalence treats Constant(Ellipsis) and Name('Ellipsis') as equal and ignores the u'' string kind",
+    "symtable ground truth is taken on the block with list/set/dict comprehensions rewritten to generator expressions "
+    "(same scoping; CPython 3.12's symtable merges inlined comprehensions into the enclosing function, PEP 709)",
+    "expressions placed in tag attributes use the attribute quote that does not occur in them (both present: skipped)",
 ]
 TRUSTED_EXTRA = [
     "C19: the precedence table (PyExpr/Prec.lean) is a specification validated exhaustively against ast.parse every run",
-    "C19: Spec.freeNames (PyExpr/Ident.lean) is a specification compared with CPython's symtable every run",
+    "C19: Spec.freeNames/boundNames (PyExpr/Ident.lean) is a specification compared with CPython's symtable every run",
+    "C19: Spec.multiFlags (PyExpr/Ws.lean) is a specification compared with the block generator's ground truth every run",
     "C19: the AST serialiser ser_expr/ser_stmts of this file and the wire parser in PyExpr/Drv.lean",
+    "C19: the classification of minimal failing cases into sites (classify_expr, remargin_features, name_roles) decides "
+    "which violations count as recorded findings",
 ]
 
 
